@@ -10,4 +10,6 @@ if [ -n "$need" ]; then
   mkdir -p .deps
   /venv/bin/pip install --no-index --find-links /opt/veriftools/wheels --target .deps $need || exit 1
 fi
+# optional: atheris (coverage-guided campaign of the thorough tiers of C02 / C11); the quick tier does not need it
+PYTHONPATH="$PWD/.deps" $PY -c "import atheris" 2>/dev/null || { mkdir -p .deps; /venv/bin/pip install -q --no-index --find-links /opt/veriftools/wheels --target .deps atheris 2>/dev/null || echo "atheris not installed (thorough fuzz campaign will be skipped)"; }
 PYTHONPATH="/repo:$PWD:$PWD/stubs:$PWD/.deps" $PY -c "import hypothesis, jsonschema, nbformat, nbdime; print('setup ok: nbdime', nbdime.__version__, 'hypothesis', hypothesis.__version__)"
